@@ -63,6 +63,7 @@ func (m *modInfo) blob() map[string]any {
 }
 
 type driver struct {
+	fam    []*modInfo // same-shape modules returning a module-specific constant
 	deaths map[string]bool
 	c      *core.Ctx
 	work   string
@@ -162,6 +163,9 @@ func run(c *core.Ctx) int {
 	}
 	if want("concsp") {
 		d.phaseConcSP()
+	}
+	if want("concdiff") {
+		d.phaseConcDiff()
 	}
 	c.Extra("phase_determinism_s", time.Since(c.Start).Seconds())
 	if want("corrupt") {
@@ -282,6 +286,13 @@ func (d *driver) phaseRef() {
 		}
 		mi := &modInfo{Name: s.Name, Kind: s.Kind, Wasm: filepath.Join(d.work, "mod-"+s.Name, "module.wasm"), Sub: o.Sub, Key: o.Key,
 			EntryPath: o.Entry, Entry: entry, EntrySha: shaHex(entry), L: l, Trace: o.Trace, Want: shaHex([]byte(o.Trace))}
+		if s.Kind == "family" {
+			// only used by the concurrent-compilation-of-different-modules phase
+			d.fam = append(d.fam, mi)
+			c.Count("family_modules", 1)
+			c.Distinct("family_entry_sizes", fmt.Sprint(len(entry)))
+			continue
+		}
 		d.mods = append(d.mods, mi)
 		c.Distinct("modules", fmt.Sprintf("%s(entry=%dB funcs=%d code=%dB sourcemap=%d)", s.Name, len(entry), l.NFuncs, l.CodeLen, l.SMLen))
 		c.Distinct("wazero_version_in_entries", l.Version)
@@ -306,8 +317,9 @@ type useExpect struct {
 	kind   string // crash | trunc | skew | corrupt
 	param  string // for signatures: point / region / version class
 	mod    *modInfo
-	hasBad bool // a damaged entry was planted under the final name
-	info   bool // information only (corruption)
+	hasBad bool            // a damaged entry was planted under the final name
+	others map[string]bool // keys of other modules whose entries legitimately share the directory
+	info   bool            // information only (corruption)
 }
 
 // decideUse applies monitor 2 (+ the directory monitor after every round).
@@ -383,7 +395,7 @@ func (d *driver) decideUse(e useExpect, job useJob, r core.CaseResult) string {
 		// directory monitor after the round
 		final, hasFinal := rr.Files[m.Key]
 		for name, fi := range rr.Files {
-			if name == m.Key || strings.HasSuffix(name, ".tmp") {
+			if name == m.Key || strings.HasSuffix(name, ".tmp") || e.others[name] {
 				continue
 			}
 			_ = fi
